@@ -208,3 +208,16 @@ Proof.
   rewrite (usage_unused_agree c b Hf Ha Hp Hd x).
   rewrite (usage_undefined_agree c b all others Hf Ha Hp Hfl Hle Hall). reflexivity.
 Qed.
+
+(* ------------------------------------------------------------------ pos_clean discharged from the layout hypothesis Laid *)
+From LH Require Spec.LuaScope.
+From LH Require Import Proofs.UsageBindLaid.
+
+Theorem usage_diags_agree_laid W c b all others :
+  in_fragment b = true -> classA_ok b = true -> LuaScope.laid_b W b = true -> flags_ok b = true ->
+  decl_locs_distinct b = true -> later_elsewhere c b others = false ->
+  (forall n, name_mem n all = name_mem n (gnames (s1_gmap (first_pass c b))) || name_mem n others) ->
+  forall x, In x (go_diags c b all) <-> In x (spec_diags c b others).
+Proof.
+  intros Hf Ha Hl. apply usage_diags_agree; auto. exact (usage_laid_pos_clean W b Hf Hl).
+Qed.
